@@ -377,3 +377,56 @@ func ZZH_C18_ImagePlaceholders() {
 	}
 	zzvReach("image placeholders processed")
 }
+
+// ---- table row loops ----
+
+// zzhLoopTable: a 3 x 2 table whose middle row is a row loop over "items".
+func zzhLoopTable(d *Document) *Table {
+	t, err := d.AddTable(&TableConfig{Rows: 3, Cols: 2, Width: 3000})
+	zzvAssume(err == nil && t != nil)
+	for _, c := range []struct {
+		r, c int
+		s    string
+	}{{0, 0, "head"}, {0, 1, "hcol"}, {1, 0, "{{#each items}}{{iname}}"}, {1, 1, "{{qty}}{{/each}}"}, {2, 0, "foot"}, {2, 1, "fcol"}} {
+		zzvAssume(t.SetCellText(c.r, c.c, c.s) == nil)
+	}
+	return t
+}
+
+// A table whose middle row holds a loop is expanded into one row per item, in item order, each
+// row carrying the item's field values; the rows before and after keep their content and
+// place; with no items (list empty or never supplied) the template row disappears.
+func ZZH_C18_TableRowLoop() {
+	d := New()
+	t := zzhLoopTable(d)
+	n := zzvChoice(zzvBound("row_items", 3, 4))
+	supplied := n > 0 || zzvBool()
+	td := NewTemplateData()
+	var items []interface{}
+	var names, qtys []string
+	for i := 0; i < n; i++ {
+		name, qty := zzhValue(2), zzhValue(1)
+		names, qtys = append(names, name), append(qtys, qty)
+		items = append(items, map[string]interface{}{"iname": name, "qty": qty})
+	}
+	if supplied {
+		td.SetList("items", items)
+	}
+	te := NewTemplateEngine()
+	zzvAssert(te.renderTableTemplate(t, td) == nil, "row loop: expansion succeeds")
+	zzvAssert(t.GetRowCount() == 2+n, "row loop: one row per item between the rows that were there")
+	if t.GetRowCount() != 2+n {
+		return
+	}
+	cell := func(r, c int) string {
+		s, err := t.GetCellText(r, c)
+		zzvAssert(err == nil, "row loop: every row keeps its cells")
+		return s
+	}
+	zzvAssert(cell(0, 0) == "head" && cell(0, 1) == "hcol", "row loop: the rows before the loop row keep their content")
+	zzvAssert(cell(1+n, 0) == "foot" && cell(1+n, 1) == "fcol", "row loop: the rows after the loop row keep their content")
+	for i := 0; i < n; i++ {
+		zzvAssert(cell(1+i, 0) == names[i] && cell(1+i, 1) == qtys[i], "row loop: each item's row carries that item's field values, in item order")
+	}
+	zzvReach("row loop expanded")
+}
